@@ -756,8 +756,9 @@ PROPERTY = Property(
     assumptions=[
         "CPython's re engine on the three copyright patterns is mirrored by Model.searchLine (prefix extension candidates in backtracking "
         "priority, greedy white space, year alternatives, lazy statement up to END) and compared on every run; END is generated from the source",
-        "well-formed holders (Spec.WFHolder / wf_holder): non-empty, stripped, no line break, no 'Copyright' / '©' inside, not starting with "
-        "'(C)' / '(c)' or a digit, no suffix made of comment terminators — at the excluded points the tool's behaviour is compared with the "
-        "model but not judged",
+        "well-formed holders (Spec.WFHolderL && Spec.noNoticeInside / wf_holder): non-empty, stripped, no line break, no tag ('SPDX-FileCopyrightText:', "
+        "'SPDX-SnippetCopyrightText:', 'Copyright', '©') followed by white space inside, not starting with '(C)' / '(c)' + white space, a digit or "
+        "'-YYYY' + white space, no suffix made of comment terminators — at the excluded points the tool's behaviour is compared with the model but "
+        "not judged",
     ],
 )
